@@ -61,7 +61,8 @@ Theorem C01_static_document_survives_whitespace_pass : forall l,
 Proof. exact nuke_static_document. Qed.
 Print Assumptions C01_static_document_survives_whitespace_pass.
 
-(** templates with interpolation, `=` scripts and `-` blocks written without braces (if / for / switch, no else):
+(** templates with interpolation, `=` scripts, dynamic and conditional attributes, and `-` blocks written without
+    braces (if / for / switch, no else):
     the generated body is a run of literal chunks, dynamic blocks and Go statements `stmt { ... }`, [denotes],
     standing for the segments [segs_list body]: literal HTML ([SLit]), for each `= expr` / `#{expr}` the
     EscapeString-ed value of the expression ([SDyn]), and for each `-` line its statement around the code of its
@@ -134,7 +135,7 @@ Print Assumptions C01_nonvacuous.
 (** a real template with interpolation inside an element and a script line: its body is in the fragment, and its
     segments are the expected ones *)
 Definition ex2_src : bytes :=
-  lit "@goht T(a string, xs []string) {" ++ [10; 9] ++ lit "%p.c hello #{a}!" ++ [10; 9] ++ lit "= a" ++ [10; 9] ++
+  lit "@goht T(a string, xs []string) {" ++ [10; 9] ++ lit "%p.c{title: #{a}, hidden ? #{a == """"}} hello #{a}!" ++ [10; 9] ++ lit "= a" ++ [10; 9] ++
   lit "- for _, x := range xs" ++ [10; 9; 9] ++ lit "%li= x" ++ [10; 9] ++ lit "- if a != """"" ++ [10; 9; 9] ++ lit "%b yes" ++ [10] ++ lit "}" ++ [10].
 Definition ex2_items : list node :=
   Eval vm_compute in match compile_parse ex2_src with ODone (Node _ items) None => items | _ => [] end.
@@ -144,7 +145,8 @@ Example C01_nonvacuous_dynamic :
   | Node (KGoht o) body :: _ =>
       Forall dyn_node body /\
       match segs_list body with
-      | [_; _; _; _; SDyn _; _; _; _; SDyn _; _; SBlock s1 b1; SBlock s2 b2] =>
+      | [_; _; _; SDynQ _; SBlock s0 _; _; _; SDyn _; _; _; _; SDyn _; _; SBlock s1 b1; SBlock s2 b2] =>
+          s0 = lit "if a == """"" /\
           s1 = lit "for _, x := range xs" /\ s2 = lit "if a != """"" /\
           eval_segs (fun e => lit "<" ++ e ++ lit ">") b1 = lit "<li>&lt;x&gt;</li>" ++ [10] /\
           eval_segs (fun e => e) b2 = lit "<b>yes</b>" ++ [10]
@@ -163,6 +165,9 @@ Proof.
     | |- dyn_node _ => cbn [dyn_node]
     | |- dyn_text _ => unfold dyn_text, static_text; cbn
     | |- static_elem _ => unfold static_elem; cbn
+    | |- dyn_elem _ => unfold dyn_elem; cbn
+    | |- dyn_attr _ => unfold dyn_attr; cbn
+    | |- plain _ => unfold plain
     | |- static_class _ => unfold static_class; cbn
     | |- block_stmt _ => unfold block_stmt; vm_compute
     | |- _ <> [] => discriminate
